@@ -228,6 +228,7 @@ InputFile() {
   _next_col_number = 1;
   _lock_position = false;
   _ignore_manifest = false;
+  _eof_newline = false;
 }
 
 /**
@@ -3176,6 +3177,16 @@ get() {
   int c = _infile->get();
 
   while (UNLIKELY(c == EOF && _infile != nullptr)) {
+    if (!_infile->_eof_newline) {
+      // Synthesize a newline, just in case the file doesn't already end with
+      // one.  The file stays on the stack until the next character is asked
+      // for, so that a directive on its last line is still processed in the
+      // context of this file.
+      _infile->_eof_newline = true;
+      c = '\n';
+      break;
+    }
+
 #ifdef CPP_VERBOSE_LEX
     indent(cerr, get_file_depth() * 2)
       << "End of input stream, restoring to previous input\n";
@@ -3185,9 +3196,7 @@ get() {
     _infile = infile->_parent;
     delete infile;
 
-    // Synthesize a newline, just in case the file doesn't already end with
-    // one.
-    c = '\n';
+    c = (_infile != nullptr) ? _infile->get() : EOF;
   }
 
   _was_start_of_line = _start_of_line;
